@@ -259,6 +259,62 @@ def prEnd (t : PrSt) : String :=
   let t2 := if t1.p.inDriver && t1.p.result.isNone then (prRun t1 [.complete (isBlockingKind t1.kind)]).getD t1 else t1
   s!"leak={t2.p.held.length * prUnit t2}"
 
+/-! ### layer `splice`: one op holding clones of two shared descriptors, registered in two interest queues -/
+
+structure SpSt where
+  si : St
+  so : St
+  mw : Compio.MultiWait.St
+  started : Bool
+  inflight : Bool
+
+def showSp (t : SpSt) (r : String) : String :=
+  s!"ok ci={t.si.count} co={t.so.count} oi={if t.si.released = 0 then 1 else 0} oo={if t.so.released = 0 then 1 else 0} r={r}"
+
+def closerResult (s : St) : String :=
+  match s.role 0 with
+  | some (Role.closer .parked) => "pending"
+  | _ => "ready"
+
+def spEvent (t : SpSt) (w : List String) : Option (SpSt × String) :=
+  match w with
+  | ["start"] =>
+    if t.started then none else
+    match step t.si (.opStart 0), step t.so (.opStart 0) with
+    | some si, some so =>
+      let t' := { t with si := si, so := so, started := true, inflight := true,
+                         mw := Compio.MultiWait.push t.mw 7 [0, 1] }
+      some (t', showSp t' "pending")
+    | _, _ => none
+  | ["cancel"] =>
+    if !t.inflight then none else
+    -- future dropped, Driver::cancel over every wait descriptor, cancelled entry reaped
+    let mw := Compio.MultiWait.reap
+      (Compio.MultiWait.cancel (Compio.MultiWait.dropFuture t.mw 7) 7 [0, 1]) 7
+    if Compio.MultiWait.keyRefs mw 7 = 0 then
+      match step t.si (.drop 1), step t.so (.drop 1) with
+      | some si, some so =>
+        let t' := { t with si := si, so := so, mw := mw, inflight := false }
+        some (t', showSp t' "-")
+      | _, _ => none
+    else
+      let t' := { t with mw := mw, inflight := false }
+      some (t', showSp t' "-")
+  | ["fin"] =>
+    if !t.inflight then none else
+    match step t.si (.drop 1), step t.so (.drop 1) with
+    | some si, some so =>
+      let t' := { t with si := si, so := so, inflight := false }
+      some (t', showSp t' "ok")
+    | _, _ => none
+  | ["closein"] => (run t.si [.close 0, .poll 0]).map fun si => ({ t with si := si }, showSp { t with si := si } (closerResult si))
+  | ["closeout"] => (run t.so [.close 0, .poll 0]).map fun so => ({ t with so := so }, showSp { t with so := so } (closerResult so))
+  | ["pollin"] => (step t.si (.poll 0)).map fun si => ({ t with si := si }, showSp { t with si := si } (closerResult si))
+  | ["pollout"] => (step t.so (.poll 0)).map fun so => ({ t with so := so }, showSp { t with so := so } (closerResult so))
+  | ["dropin"] => (step t.si (.drop 0)).map fun si => ({ t with si := si }, showSp { t with si := si } "-")
+  | ["dropout"] => (step t.so (.drop 0)).map fun so => ({ t with so := so }, showSp { t with so := so } "-")
+  | _ => none
+
 /-! ### line loop -/
 
 inductive Mode where
@@ -266,6 +322,7 @@ inductive Mode where
   | sfd (s : St)
   | rt (t : RtSt)
   | pr (t : PrSt)
+  | sp (t : SpSt)
 
 def stepLine (m : Mode) (line : String) : Mode × String :=
   if line.startsWith "#case" then (.none, line.trimAscii.toString) else
@@ -292,6 +349,21 @@ def stepLine (m : Mode) (line : String) : Mode × String :=
     if (d = "iour" || d = "poll") && (kind = "file" || kind = "unix" || kind = "tcp") then
       let s := init false
       (.rt { s := s, helpers := [] }, showRt s "-")
+    else (.none, "bad-op")
+  | .none, "splice" :: d :: rest =>
+    if (d = "iour" || d = "poll") && (rest = [] || rest = ["fed"]) then
+      let t : SpSt := { si := init false, so := init false, mw := Compio.MultiWait.init, started := false,
+                        inflight := false }
+      (.sp t, showSp t "-")
+    else (.none, "bad-op")
+  | .sp t, w =>
+    match spEvent t w with
+    | some (t', o) => (.sp t', o)
+    | none => (.sp t, "rej")
+  | .none, ["prod", d, kind, "fd0"] =>
+    if (d = "iour" || d = "poll") && (kind = "accept" || kind = "multi" || isBlockingKind kind) then
+      (.pr { p := Compio.Produced.init, kind := kind, drv := d, conns := 0, peers := 0, submitted := false,
+             gone := false }, "ok")
     else (.none, "bad-op")
   | .none, ["prod", d, kind] =>
     if ((d = "iour" || d = "poll") && (kind = "accept" || kind = "multi" || isBlockingKind kind)) ||
